@@ -8,6 +8,7 @@ import (
 	"strings"
 
 	"github.com/onflow/atree"
+	testutils "github.com/onflow/atree/test_utils"
 )
 
 // Map engine: one root map "m" per history with a table-driven digester.  A history may
@@ -36,9 +37,21 @@ func newMapWorld(T int, limit int, table map[int][4]uint64) *World {
 	if limit >= 0 {
 		atree.VerifSetMaxCollisionLimitPerDigest(uint32(limit))
 	}
+	atree.VerifSetLevel0DigestMask(builtinMask)
+	if builtinMask != 0 {
+		// production digester (CircleHash + BLAKE3, pooled) with its first-level digest masked: real first-level collisions
+		m, err := atree.NewMap(w.St, w.Addr, atree.NewDefaultDigesterBuilder(), testutils.NewSimpleTypeInfo(42))
+		must(err)
+		w.H["m"] = &Handle{Name: "m", Kind: "M", Map: m}
+		w.Roots = append(w.Roots, "m")
+		return w
+	}
 	w.Exec(Op{Op: "new_map", New: "m", Ti: 42})
 	return w
 }
+
+// builtinMask != 0: root maps use the built-in digester with this mask on the first-level digest (flag -builtinmask).
+var builtinMask uint64
 
 func parseDigTuple(raw json.RawMessage) (map[int][4]uint64, bool) {
 	var t []json.RawMessage
@@ -64,7 +77,9 @@ func cmdMapRun(args []string) {
 	fs := flag.NewFlagSet("map-run", flag.ExitOnError)
 	in := fs.String("in", "", "histories ndjson (first line cfg)")
 	out := fs.String("out", "", "trace ndjson")
-	mode := fs.String("mode", "edge", "edge|full")
+	mode := fs.String("mode", "edge", "edge|full|tail")
+	fs.Uint64Var(&builtinMask, "builtinmask", 0, "use the built-in digester with this mask on the first-level digest")
+	tail := fs.Int("tail", 40, "tail mode: number of final operations recorded")
 	probe := fs.String("probe", "", "comma list of probes run at the end of every history: iter,partial,batch,copy,mutiter")
 	pseed := fs.Int64("seed", 1, "seed for probe choices")
 	fs.Parse(args)
@@ -108,6 +123,9 @@ func cmdMapRun(args []string) {
 		from := 0
 		if *mode == "edge" {
 			from = len(ops) - 1
+		}
+		if *mode == "tail" && len(ops) > *tail {
+			from = len(ops) - *tail
 		}
 		for _, op := range ops[:from] {
 			w.ExecSilent(op)
